@@ -369,6 +369,15 @@ def _scalars(rng, n_random=12):
     return vals
 
 
+_FAMS = {"ED": ["ed"], "RIS": ["ris"], "MONT": ["mont"], "SG": ["sc"], "S64": ["sc"], "S32": ["sc"], "SGR": ["sc", "edmul"], "SM": ["edmul"], "SM2": ["edmul"], "MSM": ["edmul"], "VSM": ["edmul"], "VMSM": ["edmul"], "AVX2E": ["ed", "edmul"], "AVX2F": ["ed", "edmul"],
+            "SIG": ["sig", "slices"], "BV": ["sig", "slices"], "K-SERDE": ["serde"], "RIS2": ["ris", "edmul"], "SMNT": ["edmul", "sig"], "IFMAE": ["ed", "edmul"], "IFMAF": ["ed", "edmul"], "GRP": ["grp", "ed", "ris"], "FG": ["ed", "ris"], "F64": ["ed"], "F32": ["ed"]}
+
+
+def families_of(unit):
+    """replay families of a unit (None: the unit has no native replay)"""
+    return _FAMS.get(unit)
+
+
 def refute_papi(unit, fn, repo, seed):
     from vlib import oracle as O
     binary = _build_papi(repo)
@@ -381,8 +390,7 @@ def refute_papi(unit, fn, repo, seed):
     def add(rq, ex):
         reqs.append(rq); exps.append(ex)
 
-    fams = {"ED": ["ed"], "RIS": ["ris"], "MONT": ["mont"], "SG": ["sc"], "S64": ["sc"], "S32": ["sc"], "SGR": ["sc", "edmul"], "SM": ["edmul"], "SM2": ["edmul"], "MSM": ["edmul"], "VSM": ["edmul"], "VMSM": ["edmul"], "AVX2E": ["ed", "edmul"], "AVX2F": ["ed", "edmul"],
-            "SIG": ["sig", "slices"], "BV": ["sig", "slices"], "K-SERDE": ["serde"], "RIS2": ["ris", "edmul"], "SMNT": ["edmul", "sig"], "IFMAE": ["ed", "edmul"], "IFMAF": ["ed", "edmul"], "GRP": ["grp", "ed", "ris"], "FG": ["ed", "ris"], "F64": ["ed"], "F32": ["ed"]}.get(unit, ["ed", "ris", "mont", "sc", "edmul", "sig", "slices", "grp"])
+    fams = _FAMS.get(unit, ["ed", "ris", "mont", "sc", "edmul", "sig", "slices", "grp"])
     valid_pts = []
     for b in encs:
         a = O.ed_decode(b)
